@@ -150,7 +150,7 @@ def mutate(rng, ilen, win):
     return bytes(b[:16]).hex()
 
 
-def gen_ops(tier, rng, wins, mwins=()):
+def gen_ops(tier, rng, wins, mwins=(), tins=()):
     """Returns (ops, lane of each op)."""
     ops, lanes = [], []
 
@@ -219,6 +219,14 @@ def gen_ops(tier, rng, wins, mwins=()):
                     add((rex + pre[:-1] + ins).hex(), 'stuffed-rex')
                 elif v == 2 and k > 0:                                    # stuffing followed by random tail instead of the real one
                     add((pre + ins[:1 + rng.below(L)] + bytes(rng.below(256) for _ in range(4))).hex()[:34], 'stuffed-rex')
+    # (f) table-directed: at least one synthesised input per root-to-leaf path of the decoder table program (every opcode form the
+    #     table knows, in register / RIP-relative / SIB / disp32 addressing), alone, followed by random bytes, and cut at every length
+    for h in tins:
+        add(h, 'table')
+        b = bytes.fromhex(h)
+        add((b + bytes(rng.below(256) for _ in range(16)))[:16].hex(), 'table-padded')
+        for k in range(1, len(b)):
+            add(h[:2 * k], 'table-trunc')
     # (c) systematic short strings and random strings <= 16 bytes
     for a in range(256):
         add(f'{a:02x}', 'all1')
@@ -329,7 +337,7 @@ def run(tier):
     rng = C.Rng(C.seed()).fork('C16')
     t0 = time.time()
     try:
-        tstats, changed, _ = x86table.regen()
+        tstats, changed, dump = x86table.regen()
         gen_ok, gen_msg = True, ''
     except C.Infra as e:
         tstats, changed, gen_ok, gen_msg = {}, [], False, str(e)
@@ -350,7 +358,11 @@ def run(tier):
             raise C.Infra(f'C16 text walk: {name}: {st["unknown_abandoned"]} functions abandoned (neither the reference nor the length rule applies)')
     if len(estats) < 3 or len(wins) < 50_000 or sum(st.get('rule_validated', 0) for st in estats.values()) < 200:
         raise C.Infra(f'C16 text walk too small: {len(estats)} ELF files, {len(wins)} distinct instructions')
-    ops, lanes = gen_ops(tier, rng, wins, mwins)
+    tins, npaths = x86table.table_inputs(dump) if gen_ok else ([], 0)
+    ops, lanes = gen_ops(tier, rng, wins, mwins, tins)
+    for need in ('text', 'trunc', 'mutated', 'stuffed', 'table', 'table-trunc', 'random', 'all2'):
+        if lanes.count(need) == 0:
+            raise C.Infra(f'C16 generator lane `{need}` is empty')
     seen, o2, l2 = set(), [], []
     for o, l in zip(ops, lanes):
         if o not in seen:
@@ -360,6 +372,18 @@ def run(tier):
     ops, lanes = o2, l2
     impl, ref, model, derr = execute(ops, binary=binary)
 
+    # table coverage of the whole stream, measured by goom's own decoderCover hook
+    cov_stats = {}
+    covp = os.path.join(C.BUILD, 'c16.impl.cover')
+    if gen_ok and os.path.exists(covp):
+        covered = {int(x) for x in open(covp) if x.strip()}
+        cert, _ = x86table.analyse(dump)
+        reach = set(cert) - {0}
+        un = sorted(reach - covered)
+        cov_stats = {'table_positions_reachable_mode64 (static over-approximation)': len(reach), 'executed_by_this_stream': len(reach & covered),
+                     'never_executed': len(un), 'never_executed_pcs': un[:80], 'table_paths_enumerated': npaths, 'table_inputs': len(tins)}
+        if len(un) * 100 > len(reach):
+            raise C.Infra(f'C16 stream executed only {len(reach & covered)} of {len(reach)} reachable table positions (floor 99%)')
     # 1. the property on the implementation (ops stream + the in-process walk over every instruction of the binaries)
     bad = []
     for i, op in enumerate(ops):
@@ -472,7 +496,7 @@ def run(tier):
                          'pcrel_width_histogram': {str(k): v for k, v in sorted(pcw.items())}, 'distinct_opcodes_in_stream': len(opnames),
                          'text_walk': estats, 'text_walk_misframed_families': dict(fams), 'text_walk_distinct_opcodes': len(opsd), 'text_walk_instructions_differing_from_reference': text_differ,
                          'reference_differences_on_synthetic_strings_by_class': dict(refdiff), 'reference_differences_unexplained': len(unexplained),
-                         'table': tstats, 'gen_modules_changed_this_run': changed, 'proof_wall_s': round(t_proof, 1)},
+                         'table': tstats, 'table_coverage': cov_stats, 'gen_modules_changed_this_run': changed, 'proof_wall_s': round(t_proof, 1)},
         'explanation': 'Agreement with the reference decoder on toolchain-emitted instructions is measured (differential), not proved.',
         'samples': [{'op': ops[i], 'impl': impl[i], 'model': model[i] if model else None, 'ref': ref[i]} for i in pick if i < len(ops)],
     }
